@@ -28,7 +28,10 @@ GOENV = dict(os.environ, GOFLAGS="-mod=mod", GOPROXY="off", GOSUMDB="off", GOTOO
 
 RT_GO = r'''package %(pkg)s
 
-import "time"
+import (
+	"sync"
+	"time"
+)
 
 // harness runtime (native build): values come from a tape so that a solver model replays exactly.
 type vAssumeFail struct{}
@@ -98,6 +101,32 @@ func vAssert(b bool, label string) {
 		panic(vAssertFail{label})
 	}
 }
+func vOpaque(max int) []byte {
+	n := int(int64(vNext()))
+	if n < 0 || n > max {
+		panic(vAssumeFail{})
+	}
+	return make([]byte, n)
+}
+
+type vDoneSignal struct{}
+
+var vDoneMu sync.Mutex
+var vDoneVerdict string
+
+// vDone records the verdict of the path (first call wins). Natively the code under test keeps
+// running (it may be on another goroutine); the recorded verdict overrides the harness result.
+func vDone(ok bool, label string) {
+	vDoneMu.Lock()
+	defer vDoneMu.Unlock()
+	if vDoneVerdict == "" {
+		if ok {
+			vDoneVerdict = "true"
+		} else {
+			vDoneVerdict = "assert:" + label
+		}
+	}
+}
 func vCover(label string) { vCovers = append(vCovers, label) }
 func vNote(label string)  {}
 func vYield()             {}
@@ -158,6 +187,8 @@ func vRun(f func() bool, tape []uint64) (res string) {
 					done <- "assert:" + x.label
 				case vTapeEnd:
 					done <- "tape-end"
+				case vDoneSignal:
+					done <- "true"
 				default:
 					done <- fmt.Sprintf("panic:%%v", r)
 				}
@@ -165,7 +196,14 @@ func vRun(f func() bool, tape []uint64) (res string) {
 		}()
 		vTape = tape
 		vPos = 0
-		if f() {
+		vDoneVerdict = ""
+		r := f()
+		vDoneMu.Lock()
+		v := vDoneVerdict
+		vDoneMu.Unlock()
+		if v != "" {
+			done <- v
+		} else if r {
 			done <- "true"
 		} else {
 			done <- "false"
@@ -174,7 +212,7 @@ func vRun(f func() bool, tape []uint64) (res string) {
 	select {
 	case r := <-done:
 		return r
-	case <-time.After(3 * time.Second):
+	case <-time.After(10 * time.Second):
 		return "blocked"
 	}
 }
